@@ -406,6 +406,15 @@ def payload_canon(md):
 _SHADOWED = False
 
 
+TWINS = {}      # key id of a pool key -> the other key that was checked under that id in this process (shadow_warmup)
+
+
+def twin_of(k):
+    """The key that this process has already seen under `k`'s key id (another key pair altogether)."""
+    shadow_warmup()
+    return TWINS[k.keyid]
+
+
 def shadow_warmup():
     """Once per worker process, before its first verification: one successful signature check, in each format, with
     *another* key under the key id of every key of the pool. A key id is a label chosen by whoever writes the key
@@ -423,6 +432,7 @@ def shadow_warmup():
         twin = CryptoSigner.generate_ed25519(keyid=k.keyid)
         pub = twin.public_key.to_dict()
         pub["keyid"] = k.keyid
+        TWINS[k.keyid] = K("ed25519", twin, pub)
         for fmt in ("metablock", "dsse"):
             link = Link(name="warm-up")
             md = Metablock(signed=link) if fmt == "metablock" else Envelope.from_signable(link)
